@@ -2,10 +2,12 @@
 C13 — driver: replays an implementation trace through the model (correspondence) and the spec (monitor).
 
 Sections `excl=<0/1>` (subscriber through the real registry; resolver harness adds `pub=`/`updates=`):
-  put <k> <v> | del <k> | batch p:<k>:<v> d:<k> … | reload <k>:<v> … | reloadc <k>:<v> … | cancel | closech
+  put <k> <v> | del <k> | batch p:<k>:<v> d:<k> … | reload <k>:<v> … | reloadc <k>:<v> … | connreload <k>:<v> … |
+  reloadmid p:<k>:<v> d:<k> … / <k>:<v> …   (obs dead=1: cluster.reload did not return)
+  cancel | closech | join | joinmid p:<k>:<v> d:<k> …        (after a join the observation adds late=<ids> lmap=<k:v,…>)
   => log=<+k:v,-k,…> vals=<v:[k.k];…> map=<k:v,…> values=<ids> notified=<n> last=<ids|none> [pub=<ids> updates=<n>]
 Sections `h=kube`:
-  add <ip>… | del <ip>… | update <same 0/1> <ip>… | set <ip>…   => eps=<ids> updates=<n> pub=<ids|none>
+  add <ip>… | del <ip>… | update <oldVersion> <newVersion> <ip>… | set <ip>…   => eps=<ids> updates=<n> pub=<ids|none>
 -/
 import GoZero.Base.Trace
 import GoZero.C13.Spec
@@ -70,6 +72,8 @@ structure St where
   cnt   : Map Nat := []           -- spec: counting registrations (exclusive)
   prev  : String := ""            -- implementation's Values() after the previous line
   pub   : Option String := none   -- resolver: last published
+  dead  : Bool := false
+  late  : Option Container := none -- model of a subscriber that joined the watch later (ordinary)
 
 def coverPut (st : St) (k v : Nat) : String :=
   match st.reg.get k with
@@ -86,6 +90,10 @@ def coverDel (st : St) (k : Nat) : String :=
 def runSubLine (st : St) (r : Report) (sec : Nat) (l : Line) : St × Report := Id.run do
   let mut r := r
   let obs := l.obs
+  if (kv? obs "dead").isSome then
+    -- cluster.reload did not return: it holds the cluster lock and waits for the watch goroutine, which needs the lock
+    if st.dead then return (st, r.addCover "line-after-deadlock")
+    return ({ st with dead := true }, r.violation sec l.idx s!"reload-deadlocks-while-a-watch-response-is-handled op=[{joinSp l.op}] (the view is never updated again)")
   let some logS := kv? obs "log" | return (st, r.mismatch sec l.idx "obs-without-log" (joinSp obs))
   let some log := (splitComma logS).mapM parseLogTok | return (st, r.mismatch sec l.idx "bad-log" logS)
   -- the registry events of this line
@@ -93,8 +101,17 @@ def runSubLine (st : St) (r : Report) (sec : Nat) (l : Line) : St × Report := I
     match l.op with
     | ["put", k, v] => do pure [.put (← k.toNat?) (← v.toNat?)]
     | ["del", k] => do pure [.del (← k.toNat?)]
-    | "batch" :: ts => ts.mapM parseBatchTok
-    | "reload" :: ts | "reloadc" :: ts => do
+    | "batch" :: ts | "joinmid" :: ts => ts.mapM parseBatchTok
+    | ["join"] => some []
+    | "reloadmid" :: ts => do
+      -- the response is handled completely, then the reload (the fixed reload waits without holding the lock)
+      let batch ← (ts.takeWhile (· ≠ "/")).mapM parseBatchTok
+      let kvs ← parsePairs ((ts.dropWhile (· ≠ "/")).drop 1)
+      let n := batch.length
+      let adds := (log.drop n).filterMap fun | .add k v => some (k, v) | _ => none
+      let rems := (log.drop n).filterMap fun | .del k => some k | _ => none
+      pure (batch ++ [.reload kvs adds rems])
+    | "reload" :: ts | "reloadc" :: ts | "connreload" :: ts => do
       let kvs ← parsePairs ts
       -- the orders Go ranged over its maps in are read off the listener log: adds, then removes
       let adds := log.filterMap fun | .add k v => some (k, v) | _ => none
@@ -105,29 +122,35 @@ def runSubLine (st : St) (r : Report) (sec : Nat) (l : Line) : St × Report := I
   let some evs := evs? | return (st, r.mismatch sec l.idx "bad-op" (joinSp l.op))
   r := { r with ops := r.ops + 1 }
   -- coverage + validity of the observed orders
+  let mut curVals := st.cl.values
   for ev in evs do
+    let stv := curVals
+    curVals := stepValues curVals ev
     match ev with
     | .put k v => r := r.addCover (coverPut st k v)
     | .del k => r := r.addCover (coverDel st k)
     | .reload kvs adds rems =>
       let new := ofKVs kvs
-      let ca := calcAdds st.cl.values new
-      let cr := (calcRemoves Fix.fixed st.cl.values new).map (·.1)
+      let ca := calcAdds stv new
+      let cr := (calcRemoves Fix.fixed stv new).map (·.1)
       r := r.addCover "reload"
       if new.length ≠ kvs.length then r := r.addCover "reload-snapshot-repeats-a-key"
-      if ca.any (fun p => (st.cl.values.get p.1).isSome) then r := r.addCover "reload-key-changed-value"
-      if ca.any (fun p => (st.cl.values.get p.1).isNone) then r := r.addCover "reload-new-key"
+      if ca.any (fun p => (stv.get p.1).isSome) then r := r.addCover "reload-key-changed-value"
+      if ca.any (fun p => (stv.get p.1).isNone) then r := r.addCover "reload-new-key"
       if !cr.isEmpty then r := r.addCover "reload-key-gone"
       if ca.isEmpty && cr.isEmpty then r := r.addCover "reload-nothing-changed"
       if ca.length ≥ 2 then r := r.addCover "reload-several-adds"
       if new.isEmpty then r := r.addCover "reload-empty-snapshot"
-      if st.cl.values.isEmpty then r := r.addCover "reload-into-empty-view"
+      if stv.isEmpty then r := r.addCover "reload-into-empty-view"
       if !(sameSet adds ca) then
         r := r.mismatch sec l.idx s!"adds={showMapping ca}" s!"adds={showMapping adds}"
       if !(sameSetN rems cr) then
         r := r.mismatch sec l.idx s!"removes={showNats cr}" s!"removes={showNats rems}"
   if evs.isEmpty then r := r.addCover (joinSp l.op)
   if (l.op.head? == some "batch") then r := r.addCover "batch"
+  if (l.op.head? == some "connreload") then r := r.addCover "reload-after-connection-state-change"
+  if (l.op.head? == some "joinmid") then r := r.addCover "joinmid"
+  if (l.op.head? == some "reloadmid") then r := r.addCover "reload-while-a-response-is-handled"
   -- the listener events must be exactly what handleWatchEvents / handleChanges emit, in that order
   let expectLog := evs.flatMap emit
   if showLog expectLog ≠ logS then r := r.mismatch sec l.idx s!"log={showLog expectLog}" s!"log={logS}"
@@ -167,6 +190,11 @@ def runSubLine (st : St) (r : Report) (sec : Nat) (l : Line) : St × Report := I
   | none => pure ()
   | some p =>
     r := r.addCover "resolver-line"
+    match kv? obs "shared" with
+    | some "1" =>
+      r := r.violation sec l.idx s!"resolver-shuffles-the-shared-snapshot: subset() permutes the slice Values() returned (the cached snapshot every caller gets) in place; concurrent update() calls / readers race on it (values=[{implValues}])"
+    | some _ => r := r.addCover "resolver-subset-works-on-a-copy"
+    | none => pure ()
     let ups := kvStr obs "updates" "?"
     let some pubL := parseNats (splitComma p) | return (st, r.mismatch sec l.idx "bad-pub" p)
     let some valL := parseNats (splitComma implValues) | return (st, r.mismatch sec l.idx "bad-values" implValues)
@@ -182,7 +210,29 @@ def runSubLine (st : St) (r : Report) (sec : Nat) (l : Line) : St × Report := I
     else if some p ≠ pub then
       r := r.violation sec l.idx s!"resolver-published-without-notification pub=[{p}] before=[{pub.getD ""}]"
     pub := some p
-  let st' : St := { st with cl := cl', reg := reg', cnt := cnt', prev := implValues, pub := pub }
+  -- a subscriber that joined the existing watch later: Registry.Monitor replays the current values (any order
+  -- of the map: the ordinary subscriber's mapping does not depend on it); afterwards it is one of the listeners.
+  -- `joinmid`: the join happens while the response is being handled; the (fixed) code makes the joiner wait.
+  let isJoin := l.op.head? == some "join" || l.op.head? == some "joinmid"
+  let late' : Option Container :=
+    if isJoin then some ((sortByFst cl'.values).foldl (onAdd Fix.fixed) (Container.new false))
+    else st.late.map fun c => expectLog.foldl (applyL Fix.fixed) c
+  match late' with
+  | none => if (kv? obs "late").isSome then r := r.mismatch sec l.idx "late=<absent>" "late=<present>"
+  | some lc =>
+    r := r.addCover "late-joiner-line"
+    if isJoin && !reg'.isEmpty then r := r.addCover "join-into-nonempty-registry"
+    if l.op.head? == some "joinmid" && (evs.drop 1).any (fun ev => match ev with | .del k => (st.reg.get k).isSome | _ => true) then
+      r := r.addCover "joinmid-effective-event-after-the-join-point"
+    let implLate := kvStr obs "late" "?"
+    let implLmap := kvStr obs "lmap" "?"
+    let lview := (getValues lc).2
+    if showNats (Spec.canonSet lview) ≠ implLate then r := r.mismatch sec l.idx s!"late={showNats (Spec.canonSet lview)}" s!"late={implLate}"
+    if showMapping lc.mapping ≠ implLmap then r := r.mismatch sec l.idx s!"lmap={showMapping lc.mapping}" s!"lmap={implLmap}"
+    let wantLate := showNats (Spec.viewList reg')
+    if wantLate ≠ implLate then
+      r := r.violation sec l.idx s!"late-joiner-differs-from-registry spec=[{wantLate}] impl=[{implLate}] op=[{joinSp l.op}] registry=[{showMapping reg'}]"
+  let st' : St := { st with cl := cl', reg := reg', cnt := cnt', prev := implValues, pub := pub, late := late' }
   return (st', r)
 
 /-! kube -/
@@ -190,7 +240,7 @@ def runSubLine (st : St) (r : Report) (sec : Nat) (l : Line) : St × Report := I
 def parseKEv : List String → Option KEv
   | "add" :: ts => (parseNats ts).map .add
   | "del" :: ts => (parseNats ts).map .del
-  | "update" :: s :: ts => do pure (.update (← (if s = "1" then some true else if s = "0" then some false else none)) (← parseNats ts))
+  | "update" :: o :: n :: ts => do pure (.update (o == n) (← parseNats ts))   -- resource versions: opaque strings, only equality counts
   | "set" :: ts => (parseNats ts).map .set
   | _ => none
 
@@ -200,6 +250,18 @@ def kubeSpec (cur : List Nat) : KEv → List Nat
   | .del ips => Spec.canonSet (cur.filter (fun x => !ips.contains x))
   | .update same ips => if same then cur else Spec.canonSet ips
   | .set ips => Spec.canonSet ips
+
+/-- the class of an OnUpdate's (old, new) resource versions (`-` = empty) -/
+def kubeVersionClass (o n : String) : String :=
+  if o = "-" ∨ n = "-" then (if o = n then "kube-version-both-empty" else "kube-version-empty-vs-nonempty")
+  else match o.toNat?, n.toNat? with
+    | some a, some b =>
+      if a = b then "kube-version-equal-resync"
+      else if b < a then (if decide (n > o) then "kube-version-decreasing-but-greater-as-string" else "kube-version-decreasing")
+      else if n.length > o.length then "kube-version-gains-a-digit"
+      else if decide (n < o) then "kube-version-increasing-but-smaller-as-string"
+      else "kube-version-increasing"
+    | _, _ => if o = n then "kube-version-non-numeric-equal" else "kube-version-non-numeric-different"
 
 def runKubeSection (r : Report) (s : Section) : Report := Id.run do
   let mut r := r
@@ -219,6 +281,9 @@ def runKubeSection (r : Report) (s : Section) : Report := Id.run do
       let iPub := kvStr l.obs "pub" "?"
       let iUps := kvStr l.obs "updates" "?"
       r := r.addCover ("kube-" ++ (l.op.headD "?") ++ (if h'.updates > h.updates then "-notify" else "-quiet"))
+      match l.op with
+      | "update" :: o :: n :: _ => r := r.addCover (kubeVersionClass o n)
+      | _ => pure ()
       if mEps ≠ iEps then r := r.mismatch s.idx l.idx s!"eps={mEps}" s!"eps={iEps}"
       if mPub ≠ iPub then r := r.mismatch s.idx l.idx s!"pub={mPub}" s!"pub={iPub}"
       if mUps ≠ iUps then r := r.mismatch s.idx l.idx s!"updates={mUps}" s!"updates={iUps}"
@@ -231,8 +296,82 @@ def runKubeSection (r : Report) (s : Section) : Report := Id.run do
       cur := cur'
   return r
 
+/-! concurrent sections (`h=conc`): `par <readers> <a-events> <b-events>
+  => wa=<s:e,…> wb=<s:e,…> reads=<s:e:v.v|…> values=<ids> races=<n>` -/
+
+def parseLEvs (s : String) : Option (List LEv) :=
+  if s = "-" then some [] else
+  (s.splitOn ",").mapM fun t => (parseBatchTok t).bind fun
+    | .put k v => some (.add k v)
+    | .del k => some (.del k)
+    | _ => none
+
+def parseRead (s : String) : Option (Nat × Nat × List Nat) :=
+  match s.splitOn ":" with
+  | [a, b, v] => do
+    let vs ← if v = "" then some [] else (v.splitOn ".").mapM (·.toNat?)
+    pure ((← a.toNat?), (← b.toNat?), vs)
+  | _ => none
+
+def concApply (excl : Bool) (m : Map Nat) (ls : List LEv) : Map Nat :=
+  ls.foldl (if excl then Spec.exApplyL else Spec.applyL) m
+
+def runConcSection (r : Report) (s : Section) : Report := Id.run do
+  let excl := kvNat s.cfg "excl" 0 = 1
+  let mut r := r
+  let mut m : Map Nat := []
+  for l in s.lines do
+    let parsed : Option (List LEv × List LEv × List (Nat × Nat) × List (Nat × Nat) × List (Nat × Nat × List Nat)) := do
+      match l.op with
+      | ["par", _, a, b] =>
+        let ea ← parseLEvs a
+        let eb ← parseLEvs b
+        let wa ← (splitComma (kvStr l.obs "wa" "")).mapM parsePair
+        let wb ← (splitComma (kvStr l.obs "wb" "")).mapM parsePair
+        let rs := kvStr l.obs "reads" ""
+        let reads ← (if rs = "" then [] else rs.splitOn "|").mapM parseRead
+        pure (ea, eb, wa, wb, reads)
+      | _ => none
+    match parsed with
+    | none =>
+      if (kvStr l.obs "reads" "").contains 'd' then
+        r := r.violation s.idx l.idx s!"read-returned-a-value-twice reads=[{kvStr l.obs "reads" ""}]"
+      else r := r.mismatch s.idx l.idx "bad-conc-line" (joinSp (l.op ++ ["=>"] ++ l.obs))
+    | some (ea, eb, wa, wb, reads) =>
+      r := { r with ops := r.ops + 1 }
+      r := r.addCover (if excl then "conc-line-exclusive" else "conc-line")
+      if wa.length ≠ ea.length ∨ wb.length ≠ eb.length then
+        r := r.mismatch s.idx l.idx s!"writes={ea.length}+{eb.length}" s!"writes={wa.length}+{wb.length}"
+      for (rs, re, vs) in reads do
+        -- `reader_linearizable`: the read returns the view after a prefix of each writer's events that contains
+        -- every event completed before the read started and no event started after it returned
+        let loA := (wa.filter fun w => w.2 < rs).length
+        let hiA := (wa.filter fun w => w.1 < re).length
+        let loB := (wb.filter fun w => w.2 < rs).length
+        let hiB := (wb.filter fun w => w.1 < re).length
+        let got := showNats (Spec.canonSet vs)
+        let ok := (List.range (hiA - loA + 1)).any fun i => (List.range (hiB - loB + 1)).any fun j =>
+          showNats (Spec.viewList (concApply excl (concApply excl m (ea.take (loA + i))) (eb.take (loB + j)))) == got
+        if hiA > loA ∨ hiB > loB then r := r.addCover "conc-read-overlaps-a-write" else r := r.addCover "conc-read-between-writes"
+        if (Spec.canonSet vs).length ≠ vs.length then
+          r := r.violation s.idx l.idx s!"read-returned-a-value-twice read=[{rs}:{re}:{showNats vs}]"
+        if !ok then
+          r := r.violation s.idx l.idx s!"read-not-linearizable read=[{rs}:{re}] returned=[{got}] allowed: the view after {loA}..{hiA} of A's and {loB}..{hiB} of B's events"
+      m := concApply excl (concApply excl m ea) eb
+      let want := showNats (Spec.viewList m)
+      let implValues := kvStr l.obs "values" "?"
+      if want ≠ implValues then
+        r := r.violation s.idx l.idx s!"view-differs-from-registry spec=[{want}] impl=[{implValues}] excl={decide (excl = true)} op=[{joinSp l.op}] (concurrent writers)"
+      if kvStr l.obs "panics" "0" ≠ "0" then
+        r := r.violation s.idx l.idx s!"concurrent-read-panicked panics={kvStr l.obs "panics" "?"} op=[{joinSp l.op}]"
+      let races := kvStr l.obs "races" "?"
+      if races ≠ "0" then
+        r := r.violation s.idx l.idx s!"data-race-detected races={races} op=[{joinSp l.op}]"
+  return r
+
 def runSection (r : Report) (s : Section) : Report := Id.run do
   if kvStr s.cfg "h" "" = "kube" then return runKubeSection r s
+  if kvStr s.cfg "h" "" = "conc" then return runConcSection r s
   let excl := kvNat s.cfg "excl" 0 = 1
   let mut st : St := { excl := excl, cl := { cont := Container.new excl } }
   let mut r := r
